@@ -254,7 +254,12 @@ class _ReusablePoolExecutor(ProcessPoolExecutor):
             ):
                 time.sleep(1e-3)
 
-            self._adjust_process_count()
+            # Do not start workers on an executor that got flagged as broken or
+            # shutdown in the meantime: its manager thread is terminating and
+            # would never stop them. The flags are set under this lock.
+            with self._flags.shutdown_lock:
+                if not (self._flags.broken or self._flags.shutdown):
+                    self._adjust_process_count()
             # Wait for the new workers to be alive. Look at the current set of
             # workers at each iteration: a worker that left in the meantime
             # (idle timeout, crash flagging the executor as broken, concurrent
